@@ -755,52 +755,9 @@ Proof. intros pf rx P toks e H10 Ht He. exact (parse_file_ok pf rx P H10 toks e 
 (* ------------------------------------------------------------------------------------------------ *)
 (* types.Parse on a byte string *)
 
-(* the upper bounds of pos_within *)
-Definition pos_upper (s : str) (line col : Z) : Prop :=
-  1 <= line <= 1 + count_nl s /\ col <= line_len s line + 2.
-
-Lemma pos_upper_10 s : pos_upper s 1 0.
-Proof.
-  unfold pos_upper. pose proof (count_nl_nonneg s). pose proof (line_len_nonneg s 1). lia.
-Qed.
-
-Lemma lex_stream_ok_upper ol s : stream_ok (pos_upper s) (fst (lex ol s)) (snd (lex ol s)).
-Proof.
-  destruct (lex_positions ol s) as [Htoks Herr].
-  split.
-  - eapply Forall_impl; [|exact Htoks]. intros t ((H1 & H2) & (H3 & H4)).
-    unfold Ptok, pos_upper. pose proof (rune_count_nonneg (pt_text t)). lia.
-  - pose proof (lex_terminates ol s) as Hf. pose proof (lex_no_fault ol s) as Hn.
-    pose proof (lex_shape ol s) as Hs.
-    destruct (snd (lex ol s)) eqn:E; try congruence.
-    + apply Hs. reflexivity.
-    + destruct (Herr line col eq_refl) as ((H1 & H2) & (H3 & H4)). unfold pos_upper. lia.
-Qed.
-
-(* parse_total (upper bounds): for every byte string and all oracles, Parse answers — a value, or a parse error
-   whose line is a line of the input and whose column does not exceed the length of that line + 2; never a fault
-   (raw or wrapped), never out of fuel, never a read beyond the end token. *)
-Theorem parse_total_upper : forall pf rx ol s,
-  okres (pos_upper s) (fun _ => True) (parse_string pf rx ol s).
-Proof.
-  intros pf rx ol s. unfold parse_string.
-  pose proof (lex_stream_ok_upper ol s) as H.
-  destruct (lex ol s) as [toks e]. cbn [fst snd] in H.
-  apply parse_file_ok; [apply pos_upper_10|exact H].
-Qed.
-
-Theorem parse_no_fault : forall pf rx ol s,
-  parse_string pf rx ol s <> PFault /\ parse_string pf rx ol s <> POutOfFuel.
-Proof.
-  intros pf rx ol s. pose proof (parse_total_upper pf rx ol s) as H.
-  destruct (parse_string pf rx ol s); cbn in H; split; try discriminate; contradiction.
-Qed.
-
-(* ---- the full location bound ---- *)
-
 Lemma pos_within_10 s : pos_within s 1 0.
 Proof.
-  unfold pos_within. pose proof (count_nl_nonneg s). pose proof (line_len_nonneg s 1). lia.
+  unfold pos_within. pose proof (count_nl_nonneg s). pose proof (line_len_nonneg s 1). cbn. lia.
 Qed.
 
 Lemma lex_stream_ok ol s : stream_ok (pos_within s) (fst (lex ol s)) (snd (lex ol s)).
@@ -810,7 +767,8 @@ Proof.
   split.
   - rewrite Forall_forall in *. intros t Hin.
     destruct (Htoks t Hin) as ((H1 & H2) & (H3 & H4)). specialize (Hcols t Hin). cbn beta in Hcols.
-    unfold Ptok, pos_within. pose proof (rune_count_nonneg (pt_text t)). lia.
+    unfold Ptok, pos_within. pose proof (rune_count_nonneg (pt_text t)).
+    destruct (1 <? pt_line t); lia.
   - pose proof (lex_terminates ol s) as Hf. pose proof (lex_no_fault ol s) as Hn.
     pose proof (lex_shape ol s) as Hs.
     destruct (snd (lex ol s)) eqn:E; try congruence.
@@ -828,4 +786,11 @@ Proof.
   pose proof (lex_stream_ok ol s) as H.
   destruct (lex ol s) as [toks e]. cbn [fst snd] in H.
   apply parse_file_ok; [apply pos_within_10|exact H].
+Qed.
+
+Theorem parse_no_fault : forall pf rx ol s,
+  parse_string pf rx ol s <> PFault /\ parse_string pf rx ol s <> POutOfFuel.
+Proof.
+  intros pf rx ol s. pose proof (parse_total pf rx ol s) as H.
+  destruct (parse_string pf rx ol s); cbn in H; split; try discriminate; contradiction.
 Qed.
